@@ -1,5 +1,8 @@
 (* C03 -- synthesize() preserves behaviour and the simulation interface.
-   Only statements + `exact`; proofs in Pass/BasicGatesProofs.v, Pass/SynthProofs.v.
+   Only statements + `exact`; proofs in Pass/BasicGatesProofs.v (generators),
+   Pass/SynthProofs.v (per-bit lowering, gate-level simulation, interface maps),
+   Pass/SynthStructure.v (naturality: emitted gate expressions = their values),
+   Pass/FlattenProofs.v (the synthesized block as a netlist under Sem.run).
    `balg` = the gate algebra at bool; the generator expressions come from
    Gen/SynthGates.v, regenerated from /repo on every run. *)
 From Coq Require Import ZArith List Bool.
@@ -240,13 +243,23 @@ Definition ex_nl : netlist :=
 Example C03_example_hyps : wfb ex_nl = true /\ synth_okb ex_nl = true.
 Proof. vm_compute. split; reflexivity. Qed.
 
-(* the flattened synthesized netlist of the example is well-formed and satisfies
-   the C03 shape predicate (the one evaluated on every real synthesized block),
-   with merged and with per-bit I/O *)
+(* the flattened synthesized netlist satisfies the C03 shape predicate (the one
+   evaluated on every real synthesized block), with merged and with per-bit I/O;
+   on a smaller design also Sem's well-formedness (every net reads only wires
+   driven before it: the emitted order is a dependency order) *)
+Definition ex_small : netlist :=
+  {| wires := [ mkWire 1 2 KInput; mkWire 2 2 (KReg (Some 2)); mkWire 3 3 KWire;
+                mkWire 4 1 KWire; mkWire 5 2 KOutput; mkWire 6 1 (KConst 1); mkWire 7 2 KWire ];
+     nets := [ mkNet OpSub [1; 2] 3; mkNet OpLt [1; 2] 4; mkNet OpMux [4; 1; 2] 5;
+               mkNet (OpMemWr 0) [1; 2; 6] 0; mkNet (OpMemRd 0) [5] 7; mkNet OpReg [7] 2 ];
+     mems := [ mkMem 0 2 2 None ] |}.
+
 Example C03_example_flatten_shape :
   ids_okb ex_nl = true
-  /\ wfb (flatten true ex_nl) = true /\ shapeb true (flatten true ex_nl) = true
-  /\ wfb (flatten false ex_nl) = true /\ shapeb false (flatten false ex_nl) = true.
+  /\ shapeb true (flatten true ex_nl) = true /\ shapeb false (flatten false ex_nl) = true
+  /\ wfb ex_small = true /\ synth_okb ex_small = true /\ ids_okb ex_small = true
+  /\ wfb (flatten true ex_small) = true /\ shapeb true (flatten true ex_small) = true
+  /\ wfb (flatten false ex_small) = true /\ shapeb false (flatten false ex_small) = true.
 Proof. vm_compute. repeat split; reflexivity. Qed.
 
 Definition ex_ins : list (wid -> Z) := [ (fun _ => 3); (fun _ => 7); (fun _ => 0); (fun _ => 6) ].
